@@ -200,6 +200,8 @@ def generate(rng, tier):
         cases.append({'kind': 'fault', 'ff': c13_ff.gen_ff(rng), 'fault': c13_ff.FAULTS[i % len(c13_ff.FAULTS)], 'sub': rng.randrange(10 ** 6)})
     for _ in range(60 * k):
         cases.append({'kind': 'itp', 'mols': c13_ff.gen_itp(rng)})
+    for _ in range(60 * k):
+        cases.append({'kind': 'itpfault', 'mols': c13_ff.gen_itp(rng), 'sub': rng.randrange(10 ** 6)})
     for _ in range(100 * k):
         cases.append({'kind': 'mapping', 'file': c13_map.gen_file(rng)})
     for i in range(40 * k):
@@ -244,6 +246,7 @@ def run_impl(inp):
             return {'weights': [[int(to[1:]), [[int(fr[1:]), str(Fraction(wt).limit_denominator(10 ** 6))] for fr, wt in fw.items()]] for to, fw in w.items()]}
         except IOError:
             return {'weights': None}
+    ff0 = vermouth.forcefield.ForceField(name='testff')
     if k == 'line':
         import collections
         import json
@@ -295,6 +298,14 @@ def run_impl(inp):
         except (IOError, KeyError, ValueError):
             return {'msg': None}
         return {'msg': 'a file with the fault %s was loaded without an error' % inp['fault'], 'text': lines}
+    if k == 'itpfault':
+        lines, typ = c13_ff.inject_itp_fault(random.Random(inp['sub']), inp['mols'])
+        try:
+            itp_read.read_itp(lines, ff0)
+        except (IOError, KeyError, ValueError, IndexError):
+            return {'msg': None, 'directive': typ}
+        return {'msg': 'an ITP file with a [ %s ] line that has fewer columns than the directive has atoms was loaded without an error' % typ,
+                'text': lines, 'directive': typ}
     if k == 'mapping':
         return c13_map.run(inp['file'])
     if k == 'mapfault':
@@ -364,7 +375,7 @@ def emit(inp, out):
 
 
 def py_prop(inp, out):
-    if inp['kind'] in ('ff', 'fault', 'itp', 'mapping', 'mapfault'):
+    if inp['kind'] in ('ff', 'fault', 'itp', 'itpfault', 'mapping', 'mapfault'):
         return out.get('msg')
     return None
 
@@ -405,6 +416,8 @@ def describe(inp, out):
         d['line_by_index'] = any(t.isdigit() for t in (out['line'] or [[]])[0]) or any(t.isdigit() for t in inp['tokens'][:2])
     if inp['kind'] == 'mapfault':
         d['mapping_fault'] = inp['fault']
+    if inp['kind'] == 'itpfault':
+        d['itp_short_line'] = out.get('directive')
     if inp['kind'] == 'mapping':
         ms = inp['file']['mappings']
         d['mapping_residues'] = max(len(m['resnames']) for m in ms)
